@@ -23,13 +23,16 @@ Fixpoint no_upper (s : string) : bool :=
   match s with EmptyString => true | String c r => negb (upper c) && no_upper r end.
 Definition digitc (c : ascii) : bool := let n := nat_of_ascii c in ((48 <=? n) && (n <=? 57))%nat.
 Definition letterc (c : ascii) : bool := let n := nat_of_ascii c in ((97 <=? n) && (n <=? 122))%nat.
-(* a plain symbol: starts with a lower-case letter or '*' or '&', no delimiter, no upper case, no '.'  *)
+(* a plain symbol: starts with a lower-case letter, '*', '&', or '+' followed by a letter; no delimiter, no upper
+   case, no '.'  *)
 Fixpoint no_dot (s : string) : bool :=
   match s with EmptyString => true | String c r => negb (Nat.eqb (nat_of_ascii c) 46) && no_dot r end.
 Definition plain_name (s : string) : bool :=
   match s with
   | EmptyString => false
-  | String c r => (letterc c || Nat.eqb (nat_of_ascii c) 42 || Nat.eqb (nat_of_ascii c) 38) && no_delim r && no_upper r && no_dot r
+  | String c r => (letterc c || Nat.eqb (nat_of_ascii c) 42 || Nat.eqb (nat_of_ascii c) 38
+                   || (Nat.eqb (nat_of_ascii c) 43 && match r with String d _ => letterc d | EmptyString => false end))
+                  && no_delim r && no_upper r && no_dot r
   end.
 Definition plain_sym (s : string) : bool :=
   match s with
